@@ -56,6 +56,11 @@ func (e *OpEngine) fieldOf(p interp.PtrV, name string) interp.Value {
 
 // RunBody explores every abstract path of body; interpretation failures become undecided findings.
 func (e *OpEngine) RunBody(key, label string, maxPaths int, body func()) {
+	// loops over a symbolic bound (block / chunk loops over a batch) are unrolled up to 3 iterations: longer
+	// paths are abandoned and counted, the explored ones are decided as usual
+	saveCut, cuts0, done := e.M.LoopCut, e.M.Cuts, 0
+	e.M.LoopCut = 3
+	defer func() { e.M.LoopCut = saveCut }()
 	_, err := e.M.Explore(maxPaths, func() {
 		e.Begin()
 		sym.ActiveFacts = nil
@@ -63,9 +68,17 @@ func (e *OpEngine) RunBody(key, label string, maxPaths int, body func()) {
 		defer func() { sym.ActiveFacts = nil }()
 		body()
 		e.Paths++
+		done++
 	})
 	if err != nil {
 		e.undecided("interp", key, "unsupported", "", fmt.Sprintf("%v [instance %s]", err, label))
+		return
+	}
+	if cut := e.M.Cuts - cuts0; cut > 0 {
+		e.LoopCuts += cut
+		if done == 0 {
+			e.undecided("interp", key, "loop-bound", "", fmt.Sprintf("every path iterates a loop over a symbolic bound more than 3 times [instance %s]", label))
+		}
 	}
 }
 
@@ -133,7 +146,7 @@ func (e *OpEngine) checkTensorResult(key, label string, pos string, res []interp
 		if eqs := e.M.SymEqualities(); len(eqs) > 0 {
 			got, want = got.SubstSym(eqs), want.SubstSym(eqs)
 		}
-		if got.Key() != want.Key() {
+		if !e.sameExpr(got, want, ex.Dims) {
 			verdict, wit := e.numericCompare(got, want, ex.Dims)
 			if verdict == 1 {
 				e.Findings = append(e.Findings, Finding{Method: e.curMethod, Rule: "A2.formula", Construct: key, What: "value", Pos: pos,
